@@ -1,6 +1,6 @@
 (* C06 - publish only after durable; remove only after the replacement is durable.  Statements only. *)
 From Coq Require Import List ZArith NArith.
-From DOS Require Import Generated Base Store StoreProofs StoreLemmas Programs ProgramsProofs PackProofs MaintProofs RepackProofs.
+From DOS Require Import Generated Base Store StoreProofs StoreLemmas Programs ProgramsProofs PackProofs MaintProofs RepackProofs AddPackProofs.
 Import ListNotations.
 
 Section C06.
@@ -61,6 +61,16 @@ Proof.
   intros w l id objs m A P B C D E F G I.
   destruct (repack_crash_safe H inflate H_inj w l id objs true m A B C D E F G I) as (_ & _ & Z). exact (Z eq_refl P).
 Qed.
+
+(* (2e) direct-to-pack with do_fsync = true (the default), all modes and batches, every crash point *)
+Theorem C06_add_to_pack_power_safe : forall w l id objs nh twice m,
+  Inv H inflate w -> Inv H inflate (power_loss w) -> pending l = [] -> Forall (aobj_ok H inflate) objs ->
+  let w' := power_loss (crash (run_events (w, l) (firstn m (p_add_to_pack w id objs nh twice true)))) in
+  Inv H inflate w' /\ (forall k c, stored inflate (power_loss w) k = Some c -> stored inflate w' k = Some c).
+Proof.
+  intros w l id objs nh twice m A P B C.
+  destruct (add_to_pack_crash_safe H inflate H_inj w l id objs nh twice true m A B C) as (_ & _ & Z). exact (Z eq_refl P).
+Qed.
 End C06.
 
 (* (3) the defaults the property speaks of, from the AST of the current source: packing syncs by default *)
@@ -72,4 +82,5 @@ Print Assumptions C06_add_loose_power_safe.
 Print Assumptions C06_pack_power_safe.
 Print Assumptions C06_clean_power_safe.
 Print Assumptions C06_repack_power_safe.
+Print Assumptions C06_add_to_pack_power_safe.
 Print Assumptions C06_default_fsync_settings.
